@@ -113,13 +113,13 @@ Step ==
           /\ ph' = "told" /\ UNCHANGED pidOf
      ELSE IF e.k = "end" THEN UNCHANGED <<G, pidOf, ph, err>>
      ELSE LET f == CallFail(e)
-              okproto == CASE e.k = "pull" -> ph = "told" [] e.k = "recv" -> ph = "asked" [] OTHER -> ph = "told"
+              okproto == CASE e.k = "pull" -> ph = "told" [] e.k = "recv" -> ph = "asked" [] OTHER -> TRUE    \* a query may come between pull and receive_reward
           IN IF ~okproto THEN err' = "protocol" /\ UNCHANGED <<G, pidOf, ph>>
              ELSE IF f # "ok" THEN err' = f /\ UNCHANGED <<G, pidOf, ph>>
              ELSE LET r == IF IsGPO THEN GpoStep(e) ELSE PooStep(e) IN
                   /\ err' = r.err
                   /\ G' = r.G /\ pidOf' = r.po
-                  /\ ph' = IF e.k = "pull" THEN "asked" ELSE "told"
+                  /\ ph' = IF e.k = "pull" THEN "asked" ELSE IF e.k = "recv" THEN "told" ELSE ph
   /\ l' = l + 1 /\ UNCHANGED <<tid, done>>
 
 Finish ==
